@@ -364,12 +364,6 @@ where
             std::thread::Builder::new()
                 .stack_size(64 << 20)
                 .spawn_scoped(scope, move || {
-                    let mut seed_bytes = [0u8; 32];
-                    for i in 0..4 {
-                        let s = seed.wrapping_mul(0x9E3779B97F4A7C15).wrapping_add(i as u64 * 0xD1B54A32D192ED03);
-                        seed_bytes[i * 8..i * 8 + 8].copy_from_slice(&s.to_le_bytes());
-                    }
-                    let _ = seed_bytes;
                     let config = Config {
                         cases: cases as u32,
                         failure_persistence: None,
